@@ -44,9 +44,10 @@ def run_case(case):
     dmin = round(rnd.choice([0.0, rnd.uniform(0.02, 0.3) / rate, rnd.uniform(0.02, 0.3) / rate]), 5)
     if case.get("way") == "create":  # the delay set "through the distribution": a range that does not start at 0 is where mean()/sample() offsets matter
         dmin = max(dmin, round(0.05 / rate, 5))
-    dmax = round(dmin + rnd.uniform(0.3, 2.5) / rate, 5)
+    wide_range = rnd.random() < 0.7  # two thirds: a range of at least one sender period and d in its upper half, so that d moves messages
+    dmax = round(dmin + (rnd.uniform(1.0, 2.5) if wide_range else rnd.uniform(0.3, 2.5)) / rate, 5)
     way = case.get("way") or rnd.choice(["create", "init_delays", "init_delays_lower", "alpha", "saturate_hi", "saturate_lo"])
-    d = round(rnd.uniform(dmin, dmax), 5)
+    d = round(rnd.uniform(dmin + 0.5 * (dmax - dmin) if wide_range else dmin, dmax), 5)
     if rnd.random() < 0.15:
         d = rnd.choice([dmin, dmax])
     d_static = d
